@@ -565,7 +565,7 @@ pub fn check_main(args: CheckArgs) -> i32 {
             "known_findings_met": known_reported,
             "regression_replays": regressions_replayed,
             "simulated_time_covered_s": stats.get("max_clock_s"),
-            "simulated_time_note": "customasm reads no clock: simulated time only moves through the clock script (values between the epoch and year 10000, jumps forwards and backwards between and during jobs); there are no timers or deadlines to fast-forward",
+            "simulated_time_note": "customasm reads no clock: simulated time moves through the clock script (values between the epoch and year 10000, jumps forwards and backwards between and during jobs) and, in one plan in three, with every read of the clock (a tick of 1 us to 10 s, or -1 s); there are no timers or deadlines to fast-forward",
             "harness_errors": agg.harness_errors.clone(),
             "real_vs_stub": crate::real_vs_stub(),
         },
